@@ -1,4 +1,592 @@
 import LcModel.Kv.Model
 /-! helper lemmas for the Kv layer -/
 namespace Kv
+
+/-! ### `bytesLt` is a strict total order -/
+
+theorem bytesLt_irrefl (a : Bytes) : bytesLt a a = false := by
+  induction a with
+  | nil => rfl
+  | cons x xs ih => simp [bytesLt, ih]
+
+theorem bytesLt_trans {a b c : Bytes} :
+    bytesLt a b = true → bytesLt b c = true → bytesLt a c = true := by
+  induction a generalizing b c with
+  | nil => cases b <;> cases c <;> simp [bytesLt]
+  | cons x xs ih =>
+    cases b with
+    | nil => simp [bytesLt]
+    | cons y ys =>
+      cases c with
+      | nil => simp [bytesLt]
+      | cons z zs =>
+        simp only [bytesLt, Bool.or_eq_true, Bool.and_eq_true, decide_eq_true_eq]
+        rintro (h1 | ⟨h1, h1'⟩) (h2 | ⟨h2, h2'⟩)
+        · left; omega
+        · left; omega
+        · left; omega
+        · right; exact ⟨by omega, ih h1' h2'⟩
+
+theorem bytesLt_total (a b : Bytes) : bytesLt a b = true ∨ a = b ∨ bytesLt b a = true := by
+  induction a generalizing b with
+  | nil => cases b <;> simp [bytesLt]
+  | cons x xs ih =>
+    cases b with
+    | nil => simp [bytesLt]
+    | cons y ys =>
+      simp only [bytesLt, Bool.or_eq_true, Bool.and_eq_true, decide_eq_true_eq, List.cons.injEq]
+      rcases Nat.lt_trichotomy x y with h | h | h
+      · left; left; exact h
+      · rcases ih ys with h' | h' | h'
+        · left; right; exact ⟨h, h'⟩
+        · right; left; exact ⟨h, h'⟩
+        · right; right; right; exact ⟨h.symm, h'⟩
+      · right; right; left; exact h
+
+theorem bytesLt_asymm {a b : Bytes} (h : bytesLt a b = true) : bytesLt b a = false := by
+  cases h' : bytesLt b a with
+  | false => rfl
+  | true => have := bytesLt_trans h h'; rw [bytesLt_irrefl] at this; cases this
+
+theorem bytesLt_ne {a b : Bytes} (h : bytesLt a b = true) : a ≠ b := by
+  rintro rfl; rw [bytesLt_irrefl] at h; cases h
+
+/-- `a ≤ b` (as `¬ b < a`) and `b < c` give `a < c` -/
+theorem bytesLt_of_le_of_lt {a b c : Bytes} (h1 : bytesLt b a = false) (h2 : bytesLt b c = true) :
+    bytesLt a c = true := by
+  rcases bytesLt_total a b with h | h | h
+  · exact bytesLt_trans h h2
+  · subst h; exact h2
+  · rw [h] at h1; cases h1
+
+theorem bytesLt_of_lt_of_le {a b c : Bytes} (h1 : bytesLt a b = true) (h2 : bytesLt c b = false) :
+    bytesLt a c = true := by
+  rcases bytesLt_total b c with h | h | h
+  · exact bytesLt_trans h1 h
+  · subst h; exact h1
+  · rw [h] at h2; cases h2
+
+/-! ### prefixes -/
+
+theorem startsWith_append (pre rest : Bytes) : startsWith pre (pre ++ rest) = true := by
+  induction pre with
+  | nil => simp [startsWith]
+  | cons p ps ih => simp [startsWith, ih]
+
+theorem startsWith_refl (pre : Bytes) : startsWith pre pre = true := by
+  have := startsWith_append pre []; simpa using this
+
+theorem startsWith_iff {pre k : Bytes} : startsWith pre k = true ↔ ∃ rest, k = pre ++ rest := by
+  constructor
+  · induction pre generalizing k with
+    | nil => intro _; exact ⟨k, rfl⟩
+    | cons p ps ih =>
+      cases k with
+      | nil => simp [startsWith]
+      | cons x xs =>
+        simp only [startsWith, Bool.and_eq_true, decide_eq_true_eq]
+        rintro ⟨rfl, h⟩
+        obtain ⟨r, rfl⟩ := ih h
+        exact ⟨r, rfl⟩
+  · rintro ⟨r, rfl⟩; exact startsWith_append pre r
+
+theorem startsWith_length {pre k : Bytes} (h : startsWith pre k = true) : pre.length ≤ k.length := by
+  obtain ⟨r, rfl⟩ := startsWith_iff.1 h; simp
+
+/-- a key with the prefix is `≥` the prefix -/
+theorem startsWith_not_lt {pre k : Bytes} (h : startsWith pre k = true) : bytesLt k pre = false := by
+  induction pre generalizing k with
+  | nil => cases k <;> rfl
+  | cons p ps ih =>
+    cases k with
+    | nil => simp [startsWith] at h
+    | cons x xs =>
+      simp only [startsWith, Bool.and_eq_true, decide_eq_true_eq] at h
+      obtain ⟨rfl, h⟩ := h
+      simp [bytesLt, ih h]
+
+/-- contiguity: between two keys with the prefix every key has the prefix -/
+theorem startsWith_between_strict {pre a b c : Bytes} (hab : bytesLt a b = true)
+    (hbc : bytesLt b c = true) (ha : startsWith pre a = true) (hc : startsWith pre c = true) :
+    startsWith pre b = true := by
+  induction pre generalizing a b c with
+  | nil => rfl
+  | cons p ps ih =>
+    cases a with
+    | nil => simp [startsWith] at ha
+    | cons x xs =>
+      cases c with
+      | nil => simp [startsWith] at hc
+      | cons z zs =>
+        cases b with
+        | nil => simp [bytesLt] at hab
+        | cons y ys =>
+          simp only [startsWith, Bool.and_eq_true, decide_eq_true_eq] at ha hc ⊢
+          obtain ⟨rfl, ha⟩ := ha
+          obtain ⟨rfl, hc⟩ := hc
+          simp only [bytesLt, Bool.or_eq_true, Bool.and_eq_true, decide_eq_true_eq] at hab hbc
+          have hy : p = y := by omega
+          subst hy
+          refine ⟨rfl, ih ?_ ?_ ha hc⟩
+          · rcases hab with h | h
+            · omega
+            · exact h.2
+          · rcases hbc with h | h
+            · omega
+            · exact h.2
+
+/-- contiguity, non-strict: `a ≤ b ≤ c` -/
+theorem startsWith_between {pre a b c : Bytes} (hab : bytesLt b a = false)
+    (hbc : bytesLt c b = false) (ha : startsWith pre a = true) (hc : startsWith pre c = true) :
+    startsWith pre b = true := by
+  rcases bytesLt_total a b with h | h | h
+  · rcases bytesLt_total b c with h' | h' | h'
+    · exact startsWith_between_strict h h' ha hc
+    · subst h'; exact hc
+    · rw [h'] at hbc; cases hbc
+  · subst h; exact ha
+  · rw [h] at hab; cases hab
+
+theorem bytesLt_append_left (pre a b : Bytes) : bytesLt (pre ++ a) (pre ++ b) = bytesLt a b := by
+  induction pre with
+  | nil => rfl
+  | cons p ps ih => simp [bytesLt, ih]
+
+theorem replicate_255_not_lt (n : Nat) (rest : Bytes) (hlen : rest.length ≤ n)
+    (hb : ∀ b ∈ rest, b < 256) : bytesLt (List.replicate n 255) rest = false := by
+  induction rest generalizing n with
+  | nil => cases n <;> rfl
+  | cons x xs ih =>
+    cases n with
+    | zero => simp at hlen
+    | succ n =>
+      have hx : x < 256 := hb x (by simp)
+      have := ih n (by simpa using hlen) (fun b hb' => hb b (by simp [hb']))
+      simp only [List.replicate_succ, bytesLt, this, Bool.and_false, Bool.or_false,
+        decide_eq_false_iff_not]
+      omega
+
+/-- every well-formed key with the prefix that fits is `≤` the descending start key -/
+theorem descStart_not_lt {pre k : Bytes} {n : Nat} (h : startsWith pre k = true)
+    (hlen : k.length ≤ pre.length + n) (hb : ∀ b ∈ k, b < 256) :
+    bytesLt (pre ++ List.replicate n 255) k = false := by
+  obtain ⟨r, rfl⟩ := startsWith_iff.1 h
+  rw [bytesLt_append_left]
+  apply replicate_255_not_lt
+  · simpa using hlen
+  · intro b hb'; exact hb b (by simp [hb'])
+
+/-! ### `takeWhile` / `dropWhile` over ordered lists -/
+
+theorem takeWhile_eq_filter_of_pairwise {α} {R : α → α → Prop} {p : α → Bool} {l : List α}
+    (hR : l.Pairwise R) (hp : ∀ a ∈ l, ∀ b ∈ l, R a b → p b = true → p a = true) :
+    l.takeWhile p = l.filter p := by
+  induction l with
+  | nil => rfl
+  | cons a l ih =>
+    rw [List.pairwise_cons] at hR
+    have ih' := ih hR.2 (fun x hx y hy => hp x (by simp [hx]) y (by simp [hy]))
+    cases hpa : p a with
+    | true => simp [hpa, ih']
+    | false =>
+      simp only [List.takeWhile_cons, List.filter_cons, hpa]
+      symm
+      simp only [Bool.false_eq_true, ↓reduceIte, List.filter_eq_nil_iff]
+      intro b hb hpb
+      have := hp a (by simp) b (by simp [hb]) (hR.1 b hb) hpb
+      rw [hpa] at this; cases this
+
+theorem dropWhile_eq_filter_of_pairwise {α} {R : α → α → Prop} {p : α → Bool} {l : List α}
+    (hR : l.Pairwise R) (hp : ∀ a ∈ l, ∀ b ∈ l, R a b → p b = true → p a = true) :
+    l.dropWhile p = l.filter (fun x => !p x) := by
+  induction l with
+  | nil => rfl
+  | cons a l ih =>
+    rw [List.pairwise_cons] at hR
+    have ih' := ih hR.2 (fun x hx y hy => hp x (by simp [hx]) y (by simp [hy]))
+    cases hpa : p a with
+    | true => simp [hpa, ih']
+    | false =>
+      simp only [List.dropWhile_cons, List.filter_cons, hpa]
+      simp only [Bool.false_eq_true, ↓reduceIte, Bool.not_false, List.cons.injEq, true_and]
+      symm
+      rw [List.filter_eq_self]
+      intro b hb
+      cases hpb : p b with
+      | false => rfl
+      | true =>
+        have := hp a (by simp) b (by simp [hb]) (hR.1 b hb) hpb
+        rw [hpa] at this; cases this
+
+/-! ### the store in iteration order -/
+
+/-- keys of the store strictly increasing -/
+def SortedBy {α} (key : α → Bytes) (store : List α) : Prop :=
+  store.Pairwise (fun a b => bytesLt (key a) (key b) = true)
+
+/-- `<` in iteration direction -/
+def olt : Order → Bytes → Bytes → Bool
+  | .asc, a, b => bytesLt a b
+  | .desc, a, b => bytesLt b a
+
+/-- the store in iteration direction -/
+def dir {α} : Order → List α → List α
+  | .asc, l => l
+  | .desc, l => l.reverse
+
+theorem dir_length {α} (o : Order) (l : List α) : (dir o l).length = l.length := by
+  cases o <;> simp [dir]
+
+theorem mem_dir {α} {o : Order} {l : List α} {x : α} : x ∈ dir o l ↔ x ∈ l := by
+  cases o <;> simp [dir]
+
+theorem filter_dir {α} (o : Order) (p : α → Bool) (l : List α) :
+    (dir o l).filter p = dir o (l.filter p) := by
+  cases o <;> simp [dir, List.filter_reverse]
+
+theorem seek_eq_dir {α} (key : α → Bytes) (store : List α) (c : Bytes) (o : Order) :
+    seek key store c o = (dir o store).dropWhile (fun x => olt o (key x) c) := by
+  cases o <;> rfl
+
+theorem sorted_dir {α} {key : α → Bytes} {store : List α} (hs : SortedBy key store) (o : Order) :
+    (dir o store).Pairwise (fun a b => olt o (key a) (key b) = true) := by
+  cases o
+  · exact hs
+  · simpa [dir, olt, List.pairwise_reverse, SortedBy] using hs
+
+theorem olt_irrefl (o : Order) (a : Bytes) : olt o a a = false := by
+  cases o <;> exact bytesLt_irrefl a
+
+theorem olt_trans {o : Order} {a b c : Bytes} (h1 : olt o a b = true) (h2 : olt o b c = true) :
+    olt o a c = true := by
+  cases o
+  · exact bytesLt_trans h1 h2
+  · exact bytesLt_trans h2 h1
+
+theorem olt_between {o : Order} {pre a b c : Bytes} (hab : olt o a b = true)
+    (hbc : olt o b c = true) (ha : startsWith pre a = true) (hc : startsWith pre c = true) :
+    startsWith pre b = true := by
+  cases o
+  · exact startsWith_between_strict hab hbc ha hc
+  · exact startsWith_between_strict hbc hab hc ha
+
+/-! ### scans -/
+
+/-- seeking to the key of a stored entry lands on that entry -/
+theorem dropWhile_cursor {α} {key : α → Bytes} {o : Order} {L R : List α} {e : α}
+    (hs : (L ++ e :: R).Pairwise (fun a b => olt o (key a) (key b) = true)) :
+    (L ++ e :: R).dropWhile (fun x => olt o (key x) (key e)) = e :: R := by
+  rw [List.pairwise_append] at hs
+  rw [List.dropWhile_append_of_pos]
+  · simp [olt_irrefl]
+  · intro a ha; exact hs.2.2 a ha e (by simp)
+
+/-- a scan that continues after a returned entry `e` yields the rest of the prefix block -/
+theorem scan_cursor {α} {key : α → Bytes} {store : List α} {pre : Bytes} {o : Order}
+    (hs : SortedBy key store) {L R : List α} {e : α} (hD : dir o store = L ++ e :: R)
+    (he : startsWith pre (key e) = true) :
+    scan key store pre (key e) o 1 = R.filter (fun x => startsWith pre (key x)) := by
+  have hp := sorted_dir hs o
+  rw [hD] at hp
+  unfold scan
+  rw [seek_eq_dir, hD, dropWhile_cursor hp]
+  simp only [List.drop_succ_cons, List.drop_zero]
+  rw [List.pairwise_append] at hp
+  have hR := hp.2.1
+  rw [List.pairwise_cons] at hR
+  exact takeWhile_eq_filter_of_pairwise hR.2
+    (fun a ha b _ hab hb => olt_between (hR.1 a ha) hab he hb)
+
+/-- ascending scan from the prefix: exactly the entries with the prefix -/
+theorem scan_asc_none {α} {key : α → Bytes} {store : List α} {pre : Bytes}
+    (hs : SortedBy key store) :
+    scan key store pre pre .asc 0 = store.filter (fun x => startsWith pre (key x)) := by
+  unfold scan seek
+  simp only [List.drop_zero]
+  rw [dropWhile_eq_filter_of_pairwise hs (fun a _ b _ hab hb => bytesLt_trans hab hb)]
+  rw [takeWhile_eq_filter_of_pairwise (hs.sublist List.filter_sublist)]
+  · rw [List.filter_filter]
+    apply List.filter_congr
+    intro x _
+    cases hx : startsWith pre (key x) with
+    | false => rfl
+    | true => simp [startsWith_not_lt hx]
+  · intro a ha b _ hab hb
+    simp only [List.mem_filter, Bool.not_eq_eq_eq_not, Bool.not_true] at ha
+    exact startsWith_between ha.2 (bytesLt_asymm hab) (startsWith_refl pre) hb
+
+/-- descending scan from a start key that has the prefix and is `≥` every stored key with the
+prefix: exactly the entries with the prefix, reversed -/
+theorem scan_desc_none {α} {key : α → Bytes} {store : List α} {pre fill : Bytes}
+    (hs : SortedBy key store)
+    (hfit : ∀ x ∈ store, startsWith pre (key x) = true → bytesLt (pre ++ fill) (key x) = false) :
+    scan key store pre (pre ++ fill) .desc 0 =
+      (store.filter (fun x => startsWith pre (key x))).reverse := by
+  have hp : store.reverse.Pairwise (fun a b => bytesLt (key b) (key a) = true) := by
+    rw [List.pairwise_reverse]; exact hs
+  unfold scan seek
+  simp only [List.drop_zero]
+  rw [dropWhile_eq_filter_of_pairwise hp (fun a _ b _ hab hb => bytesLt_trans hb hab)]
+  rw [takeWhile_eq_filter_of_pairwise (hp.sublist List.filter_sublist)]
+  · rw [List.filter_filter, ← List.filter_reverse]
+    apply List.filter_congr
+    intro x hx
+    cases hq : startsWith pre (key x) with
+    | false => rfl
+    | true => simp [hfit x (by simpa using hx) hq]
+  · intro a ha b _ hab hb
+    simp only [List.mem_filter, Bool.not_eq_eq_eq_not, Bool.not_true] at ha
+    exact startsWith_between (bytesLt_asymm hab) ha.2 hb (startsWith_append pre fill)
+
+/-! ### paging -/
+
+/-- the objects of a page (`get_cells` / `get_transactions` have this shape) -/
+def pageObjs {α} (key : α → Bytes) (store : List α) (pre : Bytes) (argsLen : Nat) (order : Order)
+    (limit : Nat) (after : Option Bytes) (P : α → Bool) : List α :=
+  ((scan key store pre (queryStart pre argsLen order after).1 order
+      (queryStart pre argsLen order after).2).filter P).take limit
+
+/-- following the cursor page by page until an empty page -/
+def walk {α} (key : α → Bytes) (store : List α) (pre : Bytes) (argsLen : Nat) (order : Order)
+    (limit : Nat) (P : α → Bool) : Nat → Option Bytes → List α
+  | 0, _ => []
+  | fuel+1, after =>
+    let objs := pageObjs key store pre argsLen order limit after P
+    if objs.isEmpty then []
+    else objs ++ walk key store pre argsLen order limit P fuel (some ((objs.getLast?.map key).getD []))
+
+theorem queryStart_some (pre : Bytes) (argsLen : Nat) (o : Order) (c : Bytes) :
+    queryStart pre argsLen o (some c) = (c, 1) := by
+  cases o <;> rfl
+
+/-- a non-empty `take` of a `filter` is the filter of an initial segment ending in its last
+element -/
+theorem take_filter_split {α} (p : α → Bool) (T : List α) (n : Nat)
+    (hne : (T.filter p).take n ≠ []) :
+    ∃ X e Y, T = X ++ e :: Y ∧ (T.filter p).take n = X.filter p ++ [e] ∧ p e = true := by
+  induction T generalizing n with
+  | nil => simp at hne
+  | cons a T ih =>
+    cases hpa : p a with
+    | false =>
+      simp only [List.filter_cons, hpa] at hne ⊢
+      obtain ⟨X, e, Y, h1, h2, h3⟩ := ih n hne
+      refine ⟨a :: X, e, Y, by simp [h1], ?_, h3⟩
+      simpa [List.filter_cons, hpa] using h2
+    | true =>
+      cases n with
+      | zero => simp at hne
+      | succ n =>
+        by_cases hrest : (T.filter p).take n = []
+        · refine ⟨[], a, T, rfl, ?_, hpa⟩
+          simp [hpa, hrest]
+        · obtain ⟨X, e, Y, h1, h2, h3⟩ := ih n hrest
+          refine ⟨a :: X, e, Y, by simp [h1], ?_, h3⟩
+          simp [hpa, h2]
+
+/-- the walk from a state whose scan is the `pre`-filter of a suffix `T` of the (directed) store
+returns the matching entries of `T` -/
+theorem walk_suffix {α} {key : α → Bytes} {store : List α} {pre : Bytes} {argsLen : Nat}
+    {o : Order} {limit : Nat} {P : α → Bool} (hs : SortedBy key store) (hl : 1 ≤ limit) :
+    ∀ (fuel : Nat) (L T : List α) (after : Option Bytes), dir o store = L ++ T →
+      scan key store pre (queryStart pre argsLen o after).1 o (queryStart pre argsLen o after).2
+        = T.filter (fun x => startsWith pre (key x)) →
+      T.length + 1 ≤ fuel →
+      walk key store pre argsLen o limit P fuel after
+        = T.filter (fun x => P x && startsWith pre (key x)) := by
+  intro fuel
+  induction fuel with
+  | zero => intro L T after _ _ h; omega
+  | succ fuel ih =>
+    intro L T after hD hscan hfuel
+    unfold walk
+    simp only [pageObjs, hscan, List.filter_filter]
+    generalize hF : (fun x => P x && startsWith pre (key x)) = F
+    by_cases hne : (T.filter F).take limit = []
+    · have : T.filter F = [] := by
+        cases hT : T.filter F with
+        | nil => rfl
+        | cons a t =>
+          rw [hT] at hne
+          cases limit with
+          | zero => omega
+          | succ n => simp at hne
+      simp [this]
+    · obtain ⟨X, e, Y, hT, hpage, hFe⟩ := take_filter_split F T limit hne
+      have hQe : startsWith pre (key e) = true := by
+        rw [← hF] at hFe; simp only [Bool.and_eq_true] at hFe; exact hFe.2
+      have hlast : (((T.filter F).take limit).getLast?.map key).getD [] = key e := by
+        rw [hpage]; simp
+      have hne' : ((T.filter F).take limit).isEmpty = false := by
+        cases h : (T.filter F).take limit with
+        | nil => exact absurd h hne
+        | cons _ _ => rfl
+      simp only [hne', Bool.false_eq_true, ↓reduceIte, hlast]
+      have hD' : dir o store = (L ++ X) ++ e :: Y := by rw [hD, hT]; simp
+      have := ih (L ++ X ++ [e]) Y (some (key e)) (by rw [hD']; simp)
+        (by rw [queryStart_some]; exact scan_cursor hs hD' hQe)
+        (by rw [hT] at hfuel; simp at hfuel; omega)
+      rw [this, hF, hpage]
+      conv => rhs; rw [hT]
+      simp [List.filter_append, hFe]
+
+theorem walk_asc {α} {key : α → Bytes} {store : List α} {pre : Bytes} {argsLen : Nat}
+    {limit : Nat} {P : α → Bool} {fuel : Nat} (hs : SortedBy key store) (hl : 1 ≤ limit)
+    (hfuel : store.length + 1 ≤ fuel) :
+    walk key store pre argsLen .asc limit P fuel none
+      = store.filter (fun x => P x && startsWith pre (key x)) :=
+  walk_suffix (o := .asc) hs hl fuel [] store none rfl (scan_asc_none hs) hfuel
+
+theorem walk_desc {α} {key : α → Bytes} {store : List α} {pre : Bytes} {argsLen : Nat}
+    {limit : Nat} {P : α → Bool} {fuel : Nat} (hs : SortedBy key store) (hl : 1 ≤ limit)
+    (hfuel : store.length + 1 ≤ fuel)
+    (hfit : ∀ x ∈ store, startsWith pre (key x) = true →
+      bytesLt (pre ++ List.replicate (MAX_PREFIX_SEARCH_SIZE - argsLen) 255) (key x) = false) :
+    walk key store pre argsLen .desc limit P fuel none
+      = (store.filter (fun x => P x && startsWith pre (key x))).reverse := by
+  rw [← List.filter_reverse]
+  refine walk_suffix (o := .desc) hs hl fuel [] store.reverse none rfl ?_ (by simpa using hfuel)
+  rw [List.filter_reverse]
+  exact scan_desc_none hs hfit
+
+/-! ### prefix search against the script -/
+
+theorem startsWith_append_right {want script : Bytes} (suffix : Bytes)
+    (h : want.length ≤ script.length) :
+    startsWith want (script ++ suffix) = startsWith want script := by
+  induction want generalizing script with
+  | nil => simp [startsWith]
+  | cons w ws ih =>
+    cases script with
+    | nil => simp at h
+    | cons x xs =>
+      have := ih (script := xs) (by simpa using h)
+      simp [startsWith, this]
+
+/-! ### the grouping loop -/
+
+/-- the loop's `same_as_last` test -/
+def sameHead (groups : List (List TxEntry)) (e : TxEntry) : Bool :=
+  match groups with
+  | (g :: _) :: _ => g.txHash = e.txHash
+  | _ => false
+
+/-- append to the current group -/
+def pushSame (e : TxEntry) (groups : List (List TxEntry)) : List (List TxEntry) :=
+  match groups with
+  | g :: gs => (e :: g) :: gs
+  | [] => [[e]]
+
+theorem groupLoop_cons (allKeys : List Bytes) (f : TxFilter) (pre : Bytes) (limit : Nat)
+    (e : TxEntry) (rest : List TxEntry) (groups : List (List TxEntry)) (last : Bytes) :
+    groupLoop allKeys f pre limit (e :: rest) groups last =
+      if !longEnough pre TX_KEY_SUFFIX_LEN e.key then groupLoop allKeys f pre limit rest groups last
+      else if groups.length = limit && !sameHead groups e then (groups, last)
+      else if !txPasses allKeys f e then groupLoop allKeys f pre limit rest groups e.key
+      else if sameHead groups e then groupLoop allKeys f pre limit rest (pushSame e groups) e.key
+      else groupLoop allKeys f pre limit rest ([e] :: groups) e.key := by
+  rw [groupLoop.eq_def]
+  rcases groups with _ | ⟨_ | ⟨g, t⟩, gs⟩ <;> rfl
+
+theorem sameHead_true {groups : List (List TxEntry)} {e : TxEntry} (h : sameHead groups e = true) :
+    ∃ g0 g' gs, groups = (g0 :: g') :: gs ∧ g0.txHash = e.txHash := by
+  match groups, h with
+  | (g0 :: g') :: gs, h => exact ⟨g0, g', gs, rfl, by simpa [sameHead] using h⟩
+
+/-- the page's objects as a flat list -/
+def flat (groups : List (List TxEntry)) : List TxEntry :=
+  ((groups.map List.reverse).reverse).flatten
+
+def GroupsOk (groups : List (List TxEntry)) : Prop :=
+  ∀ g ∈ groups, g ≠ [] ∧ ∀ a ∈ g, ∀ b ∈ g, a.txHash = b.txHash
+
+theorem flat_new (e : TxEntry) (groups : List (List TxEntry)) :
+    flat ([e] :: groups) = flat groups ++ [e] := by
+  simp [flat]
+
+theorem flat_same (e : TxEntry) (g : List TxEntry) (gs : List (List TxEntry)) :
+    flat ((e :: g) :: gs) = flat (g :: gs) ++ [e] := by
+  simp [flat]
+
+/-- what the loop's result `out` has to satisfy, started at `groups` over the list `l` -/
+def GroupRes (P : TxEntry → Bool) (limit : Nat) (l : List TxEntry)
+    (groups out : List (List TxEntry)) : Prop :=
+  out.length ≤ limit ∧ GroupsOk out ∧
+    ∃ X, flat out = flat groups ++ X ∧ X <+: l.filter P ∧ (out.length < limit → X = l.filter P)
+
+theorem groupRes_skip {P : TxEntry → Bool} {limit : Nat} {e : TxEntry} {rest : List TxEntry}
+    {groups out : List (List TxEntry)} (he : P e = false) (h : GroupRes P limit rest groups out) :
+    GroupRes P limit (e :: rest) groups out := by
+  simpa [GroupRes, List.filter_cons, he] using h
+
+theorem groupRes_push {P : TxEntry → Bool} {limit : Nat} {e : TxEntry} {rest : List TxEntry}
+    {groups groups' out : List (List TxEntry)} (he : P e = true)
+    (hflat : flat groups' = flat groups ++ [e]) (h : GroupRes P limit rest groups' out) :
+    GroupRes P limit (e :: rest) groups out := by
+  obtain ⟨h1, h2, X, h3, h4, h5⟩ := h
+  refine ⟨h1, h2, e :: X, ?_, ?_, ?_⟩
+  · rw [h3, hflat]; simp
+  · simp only [List.filter_cons, he, ↓reduceIte]
+    exact (List.prefix_cons_inj e).2 h4
+  · intro hlt; simp only [List.filter_cons, he, ↓reduceIte]; rw [h5 hlt]
+
+theorem groupLoop_inv (allKeys : List Bytes) (f : TxFilter) (pre : Bytes) (limit : Nat)
+    (l : List TxEntry) : ∀ (groups : List (List TxEntry)) (last : Bytes),
+    groups.length ≤ limit → GroupsOk groups →
+    GroupRes (fun e => longEnough pre TX_KEY_SUFFIX_LEN e.key && txPasses allKeys f e) limit l
+      groups (groupLoop allKeys f pre limit l groups last).1 := by
+  induction l with
+  | nil =>
+    intro groups last hlen hok
+    rw [groupLoop]
+    exact ⟨hlen, hok, [], by simp, by simp, fun _ => by simp⟩
+  | cons e rest ih =>
+    intro groups last hlen hok
+    rw [groupLoop_cons]
+    cases hle : longEnough pre TX_KEY_SUFFIX_LEN e.key with
+    | false => exact groupRes_skip (by simp [hle]) (by simpa using ih groups last hlen hok)
+    | true =>
+      simp only [Bool.not_true, Bool.false_eq_true, ↓reduceIte]
+      cases hsame : sameHead groups e with
+      | false =>
+        simp only [Bool.not_false, Bool.and_true, decide_eq_true_eq, Bool.false_eq_true, ↓reduceIte]
+        by_cases hfull : groups.length = limit
+        · simp only [hfull, ↓reduceIte]
+          exact ⟨by omega, hok, [], by simp, List.nil_prefix, fun h => by omega⟩
+        · simp only [hfull, ↓reduceIte]
+          cases htp : txPasses allKeys f e with
+          | false => exact groupRes_skip (by simp [htp]) (by simpa using ih groups _ hlen hok)
+          | true =>
+            simp only [Bool.not_true, Bool.false_eq_true, ↓reduceIte]
+            refine groupRes_push (by simp [hle, htp]) (flat_new e groups)
+              (ih ([e] :: groups) _ (by simp; omega) ?_)
+            intro g hg
+            rcases List.mem_cons.1 hg with rfl | hg
+            · refine ⟨by simp, ?_⟩
+              intro a ha b hb
+              simp only [List.mem_singleton] at ha hb
+              rw [ha, hb]
+            · exact hok g hg
+      | true =>
+        simp only [Bool.not_true, Bool.and_false, Bool.false_eq_true, ↓reduceIte]
+        cases htp : txPasses allKeys f e with
+        | false => exact groupRes_skip (by simp [htp]) (by simpa using ih groups _ hlen hok)
+        | true =>
+          simp only [Bool.not_true, Bool.false_eq_true, ↓reduceIte]
+          obtain ⟨g0, g', gs, rfl, hh⟩ := sameHead_true hsame
+          refine groupRes_push (by simp [hle, htp]) (flat_same e (g0 :: g') gs)
+            (ih _ _ (by simpa [pushSame] using hlen) ?_)
+          intro g hg
+          rcases List.mem_cons.1 hg with rfl | hg
+          · refine ⟨by simp, ?_⟩
+            have hg0 := (hok (g0 :: g') (by simp)).2
+            have key : ∀ a ∈ e :: g0 :: g', a.txHash = e.txHash := by
+              intro a ha
+              rcases List.mem_cons.1 ha with rfl | ha
+              · rfl
+              · rw [← hh]; exact hg0 a ha g0 (by simp)
+            intro a ha b hb
+            rw [key a ha, key b hb]
+          · exact hok g (by simp [hg])
+
 end Kv
